@@ -171,6 +171,26 @@ Fresh ==
                                <<SIf(EBin(">", P(1), I(0)), <<SExpr(ECall(Nm(F), <<EBin("-", P(1), I(1))>>))>>),
                                  SPrint(P(1))>>),
                            SExpr(ECall(Nm(F), <<I(2)>>))>>,
+      \* a rest parameter is a fresh list however the arguments were written
+      restonlyspread |-> <<SFn(F, <<RS>>, TRUE, <<SAssign(EIndex(RS, I(0)), I(99)), SReturn(RS)>>),
+                           SDecl(Nm(G), EList(<<I(1), I(2)>>)),
+                           SDecl(Nm(H), ECallOf(Nm(F), <<Spread(Nm(G))>>)),
+                           SPrint(Nm(H)), SPrint(Nm(G)), SPrint(EBin("===", Nm(H), Nm(G))),
+                           SPrint(ECallOf(Nm(F), <<Item(I(5)), Spread(Nm(G))>>)), SPrint(Nm(G)),
+                           SPrint(ECallOf(Nm(F), <<Spread(ERIndex(Nm(G), ENone, ENone))>>)), SPrint(Nm(G))>>,
+      restassign |-> <<SFn(F, <<P(1), RS>>, TRUE, <<SAssign(RS, EList(<<>>)), SAssign(P(1), I(0)), SReturn(RS)>>),
+                       SDecl(Nm(G), EList(<<I(1), I(2)>>)),
+                       SPrint(ECallOf(Nm(F), <<Spread(Nm(G))>>)), SPrint(Nm(G)),
+                       SFn(H, <<RS>>, TRUE, <<SOpAssign(RS, "+", EList(<<I(7)>>)), SReturn(RS)>>),
+                       SPrint(ECallOf(Nm(H), <<Spread(Nm(G))>>)), SPrint(Nm(G))>>,
+      \* an argument list written as a literal / a variable / a slice / a concatenation gives the same call
+      spreadforms |-> <<SFn(F, <<P(1), P(2)>>, FALSE, <<SAssign(P(1), EBin("+", P(1), P(2))), SReturn(P(1))>>),
+                        SDecl(Nm(G), EList(<<I(1), I(2)>>)),
+                        SPrint(ECallOf(Nm(F), <<Spread(Nm(G))>>)),
+                        SPrint(ECallOf(Nm(F), <<Spread(EList(<<I(1), I(2)>>))>>)),
+                        SPrint(ECallOf(Nm(F), <<Spread(EBin("+", EList(<<I(1)>>), EList(<<I(2)>>)))>>)),
+                        SPrint(ECallOf(Nm(F), <<Spread(ERIndex(Nm(G), I(0), I(1))), Spread(ERIndex(Nm(G), I(1), ENone))>>)),
+                        SPrint(Nm(G))>>,
       objparam |-> <<SDecl(Nm(O1), EObj(<<Pair(EStr(TAG), I(1))>>)),
                      SFn(F, <<P(1)>>, FALSE, <<SAssign(EProp(P(1), TAG), I(2))>>),
                      SExpr(ECall(Nm(F), <<Nm(O1)>>)), SPrint(Nm(O1))>> ]
